@@ -753,7 +753,7 @@ class Prop:
             return exes[(name, fl)]
 
         # ---- corpus first
-        for p in sorted(glob.glob(os.path.join(CORPUS, "C11", "*.case"))):
+        for p in ([] if os.environ.get("VERIF_C11_SKIP_CORPUS") else sorted(glob.glob(os.path.join(CORPUS, "C11", "*.case")))):
             engine, lines, argv, flavour = read_c11_case(p)
             origin = "corpus:" + os.path.basename(p)
             for fl in ([flavour] if flavour else ["dbg", "ndebug"]):
@@ -777,7 +777,7 @@ class Prop:
         for ci, (fl, be) in enumerate(acc_cfgs):
             x = exe("acceptor_drv", fl)
             if quick:
-                todo = rng.sample(grid, 90)
+                todo = rng.sample(grid, 140)
             else:
                 todo = grid if ci == 0 else rng.sample(grid, 400)
             for p, s in todo:
@@ -798,7 +798,7 @@ class Prop:
         ctx.extra["client_fault_sequences"] = {"sequences": len(cseqs), "exhaustive": not quick}
         for ci, fl in enumerate(cl_flavs):
             x = exe("client_drv", fl)
-            todo = rng.sample(cseqs, 45) if quick else (cseqs if ci == 0 else rng.sample(cseqs, 150))
+            todo = rng.sample(cseqs, 60) if quick else (cseqs if ci == 0 else rng.sample(cseqs, 150))
             for s in todo:
                 ei = tuple(i for i in range(len(s)) if rng.random() < 0.3)
                 self.run_client(ctx, x, fl, client_case(s, ei, final=rng.choice(["ok", "EINPROGRESS", "EINTR"]), who=rng.choice("LLF")),
@@ -818,15 +818,15 @@ class Prop:
         for ci, (fl, be) in enumerate(conn_cfgs):
             x = exe("conn_drv", fl)
             if quick:
-                todo = rng.sample(cgrid, 110)
+                todo = rng.sample(cgrid, 160)
             else:
-                todo = cgrid if ci == 0 else rng.sample(cgrid, 600)
+                todo = cgrid if ci == 0 else rng.sample(cgrid, 400)
             for name, p, c in todo:
                 CONN.one(ctx, x, inject(CONN_BASES[name], p, c), "grid:" + name, be, fl)
                 ctx.count("conn_cases")
                 if ctx.stop():
                     return
-            for i in range(70 if quick else 700):
+            for i in range(90 if quick else 500):
                 CONN.one(ctx, x, dense_conn_case(rng), "random-dense", be, fl)
                 ctx.count("conn_cases")
                 if ctx.stop():
